@@ -448,6 +448,12 @@ def run(ck):
     nw = 5 if quick else 6
     dw2 = rng.sample(km.datasets(nw, 2, vals2), 200 if quick else 1500)
     hrecs += whit_run(ck, "whitening-2d", nw, 2, dw2, coverage=cov)
+    # the smallest full-rank training sets: n = d + 1 samples in general position (and one more)
+    for nb, db, vb in ((2, 1, vals1), (3, 1, vals1), (3, 2, vals2 + [5]), (4, 2, vals2)):
+        dsb = km.datasets(nb, db, vb)
+        if len(dsb) > (60 if quick else 400):
+            dsb = rng.sample(dsb, 60 if quick else 400)
+        hrecs += whit_run(ck, "whitening-%dd-n%d" % (db, nb), nb, db, dsb, coverage=cov)
     whit_run(ck, "whitening-1d-dev-" + DEV_WHIT, 4, 1, dw1[:20], dev=(DEV_WHIT,), export=False, expect_violation=True)
     ck.exhaustive = True
     ck.extra["exported"] = {"wccn": len(wrecs), "whitening": len(hrecs)}
